@@ -172,8 +172,12 @@ Theorem C15_gen_no_stuck_goroutine : forall ev res (exec : ev -> res),
     fwd_done ev res s' = true /\ rclosed s' = true.
 Proof.
   intros ev res exec sel cap. apply C15_no_stuck_goroutine.
-  - intros k. vm_compute. reflexivity.
-  - apply Nat.leb_le. vm_compute. reflexivity.
+  - intros k.
+    first [ vm_compute; reflexivity
+          | fail 1 "generated-table obligation C15_gen_no_stuck_goroutine no longer holds against the regenerated table: ExecuteSubscription of subscription.go has a send on its result channel outside a select with a Done() case (Gen/Consts.v)" ].
+  - apply Nat.leb_le.
+    first [ vm_compute; reflexivity
+          | fail 1 "generated-table obligation C15_gen_no_stuck_goroutine no longer holds against the regenerated table: the channel of sendOneResultAndClose in subscription.go has no buffer (Gen/Consts.v)" ].
 Qed.
 Print Assumptions C15_gen_no_stuck_goroutine.
 
@@ -184,7 +188,9 @@ Theorem C15_gen_closes : forall ev res (exec : ev -> res) sel,
   exists ls s', run ev res exec sel cap s ls s' /\ Forall (fun l => lib_or_deliver l = true) ls /\
     fwd_done ev res s' = true /\ rclosed s' = true.
 Proof.
-  intros ev res exec sel cap. apply C15_closes. apply Nat.leb_le. vm_compute. reflexivity.
+  intros ev res exec sel cap. apply C15_closes. apply Nat.leb_le.
+  first [ vm_compute; reflexivity
+        | fail 1 "generated-table obligation C15_gen_closes no longer holds against the regenerated table: the channel of sendOneResultAndClose in subscription.go has no buffer (Gen/Consts.v)" ].
 Qed.
 Print Assumptions C15_gen_closes.
 
@@ -194,5 +200,9 @@ Theorem C15_gen_result_channel :
   Gen.Consts.subscription_result_send_chan_caps = [0%N] /\
   (0 < Gen.Consts.subscription_result_sends_guarded)%N /\
   Gen.Consts.subscription_oneshot_send_chan_caps = [Gen.Consts.subscription_oneshot_chan_cap].
-Proof. repeat split; vm_compute; reflexivity. Qed.
+Proof.
+  repeat split;
+  first [ vm_compute; reflexivity
+        | fail 1 "generated-table obligation C15_gen_result_channel no longer holds against the regenerated table: the channels of ExecuteSubscription / sendOneResultAndClose in subscription.go (Gen/Consts.v) are not one rendezvous channel with guarded sends and one one-shot channel" ].
+Qed.
 Print Assumptions C15_gen_result_channel.
